@@ -289,19 +289,39 @@ Fixpoint dec_scan (st : nst) (s : bytes) (d : decnum) : decnum :=
 Definition dec_parse (s : bytes) : decnum :=
   dec_scan SInit s {| d_neg := false; d_mant := 0; d_frac := 0; d_eneg := false; d_exp := 0 |}.
 
-(* correctly rounded decimal -> binary64 (the reference meaning of a float literal). Magnitudes far outside the
-   binary64 range are decided without computing the power of ten. *)
+(* number of decimal digits of m > 0 *)
+Fixpoint ndig (fuel : nat) (m : Z) : Z :=
+  match fuel with
+  | O => 0
+  | S f => if m <? 10 then 1 else 1 + ndig f (m / 10)
+  end.
+Definition ndigits (m : Z) : Z := ndig (S (Z.to_nat (Z.log2 m))) m.
+
+(* the value of the literal as a ratio of integers: mantissa * 10^e10 *)
+Definition dec_e10 (d : decnum) : Z := (if d_eneg d then - d_exp d else d_exp d) - d_frac d.
+Definition dec_ratio (d : decnum) : Z * Z :=
+  if 0 <=? dec_e10 d then (d_mant d * 10 ^ dec_e10 d, 1) else (d_mant d, 10 ^ (- dec_e10 d)).
+
+(* correctly rounded decimal -> binary64 without any shortcut *)
+Definition dec2f_full (s : bytes) : f64 :=
+  let d := dec_parse s in
+  if d_mant d =? 0 then f64_zero (d_neg d)
+  else round_ratio (d_neg d) (fst (dec_ratio d)) (snd (dec_ratio d)).
+
+(* correctly rounded decimal -> binary64 (the reference meaning of a float literal). Magnitudes far outside the binary64
+   range are decided from the number of digits without computing the power of ten: a value of at least 10^310 is beyond
+   the largest binary64, a value below 10^-400 is below half the smallest one (ProofsFloatAll.dec2f_exact_full: equal to
+   dec2f_full for every text) *)
 Definition dec2f_exact (s : bytes) : f64 :=
   let d := dec_parse s in
   let m := d_mant d in
   if m =? 0 then f64_zero (d_neg d)
   else
-    let e10 := (if d_eneg d then - d_exp d else d_exp d) - d_frac d in
-    let mag := Z.log2 m * 30103 / 100000 + e10 in     (* about log10 of the value *)
-    if 330 <? mag then FInf (d_neg d)
-    else if mag <? -360 then f64_zero (d_neg d)
-    else if 0 <=? e10 then round_ratio (d_neg d) (m * 10 ^ e10) 1
-    else round_ratio (d_neg d) m (10 ^ (- e10)).
+    let e10 := dec_e10 d in
+    let nd := ndigits m in
+    if 310 <=? nd - 1 + e10 then FInf (d_neg d)
+    else if nd + e10 <=? -400 then f64_zero (d_neg d)
+    else round_ratio (d_neg d) (fst (dec_ratio d)) (snd (dec_ratio d)).
 
 Definition has_exp_part (s : bytes) : bool := existsb is_e s.
 
